@@ -35,9 +35,11 @@ import (
 )
 
 type inject struct {
-	Kill  bool       `json:"kill"`
-	Errno string     `json:"errno"`
-	Point crashPoint `json:"point"`
+	Kill   bool       `json:"kill"`
+	Errno  string     `json:"errno"`
+	Point  crashPoint `json:"point"`
+	Second bool       `json:"second_order"` // error into Point, then kill at mutating call KillAt (ptrace stepper only)
+	KillAt int        `json:"kill_at"`
 }
 
 // caseState is what the orchestrator knows about one case.
@@ -52,6 +54,8 @@ type caseState struct {
 	vanished map[int]bool    // ptrace-driven cases: the re-run issued fewer mutating calls than pass 1, nothing left to kill at this index
 	extra    int             // ptrace-driven cases: kills at indexes beyond pass 1's count (the re-run issued more calls)
 	extraEnd bool            // a kill run beyond the last index completed: the sweep is exhaustive
+	errLen   map[string]int  // ptrace-driven cases: number of mutating calls of the run with that error injected
+	second   map[string]bool // second-order points (error e, kill k) that were hit
 	errGone  map[string]bool // ptrace-driven cases: the re-run had no call at this index to inject the error into
 }
 
@@ -153,6 +157,10 @@ func (e *engine) childSpec(j job) (vlib.ChildSpec, caseSpec) {
 			tag = fmt.Sprintf("k%02d", j.inj.Point.Index)
 			arg = fmt.Sprintf("inject=%s:error=EIO:signal=SIGKILL:when=%d", j.inj.Point.Name, j.inj.Point.Ordinal)
 		}
+		if j.inj.Second {
+			tag = fmt.Sprintf("s%02d-%02d-%s", j.inj.Point.Index, j.inj.KillAt, j.inj.Errno)
+			sp.Phase = "errkill"
+		}
 		name = fmt.Sprintf("c%03d-%s-a%d", sp.Case, tag, j.attempt)
 		wrap = append(wrap, "-e", arg)
 	}
@@ -171,7 +179,9 @@ func (e *engine) childSpec(j job) (vlib.ChildSpec, caseSpec) {
 			roots += ":" + sp.CrossTmp
 		}
 		mode := "record"
-		if j.inj != nil && j.inj.Kill {
+		if j.inj != nil && j.inj.Second {
+			mode = fmt.Sprintf("errkill=%d:%s:%d", j.inj.Point.Index, j.inj.Errno, j.inj.KillAt)
+		} else if j.inj != nil && j.inj.Kill {
 			mode = fmt.Sprintf("kill=%d", j.inj.Point.Index)
 		} else if j.inj != nil {
 			mode = fmt.Sprintf("err=%d:%s", j.inj.Point.Index, j.inj.Errno)
@@ -253,6 +263,34 @@ func (e *engine) run() {
 		t1 := time.Now()
 		e.runJobs(jobs)
 		fmt.Printf("INFO C17 pass 2 attempt %d: %d injected runs in %.1fs\n", attempt, len(jobs), time.Since(t1).Seconds())
+	}
+
+	// ---- second order (ptrace-driven cases of targets that retry): with the error injection into call e
+	// active, kill the process before each mutating call k that follows - the crash points of the retry
+	if secondOrder {
+		jobs = nil
+		for _, cs := range states {
+			if !cs.judgable || !usesStepper(cs.sp) || !retries(cs.sp.Target) {
+				continue
+			}
+			for _, key := range sortedKeys(cs.errLen) {
+				var eIdx int
+				var en string
+				fmt.Sscanf(strings.Replace(key, "/", " ", 1), "%d %s", &eIdx, &en)
+				if eIdx >= len(cs.plan.Points) {
+					continue
+				}
+				for k := eIdx + 1; k < cs.errLen[key]; k++ {
+					jobs = append(jobs, job{cs: cs, inj: &inject{Errno: en, Point: cs.plan.Points[eIdx], Second: true, KillAt: k}})
+				}
+			}
+		}
+		if len(jobs) > 0 {
+			t1 := time.Now()
+			e.runJobs(jobs)
+			fmt.Printf("INFO C17 second order (error, then kill inside the retry): %d runs in %.1fs\n", len(jobs), time.Since(t1).Seconds())
+			rep.Set("second_order_points_planned", len(jobs))
+		}
 	}
 
 	// ---- ptrace-driven cases: sweep on beyond pass 1's count until a kill run completes un-killed
@@ -512,6 +550,10 @@ func (e *engine) judge(j job, sp caseSpec, r *vlib.ChildResult) {
 	// ---------------- pass 2
 	inj := j.inj
 	rep.Eval(1)
+	if inj.Second {
+		e.judgeSecond(j, sp, r, w, tf)
+		return
+	}
 	idx, hit, why := hitIndex(tf, w, inj.Kill)
 	if inj.Kill {
 		rep.Count("kill_runs", 1)
@@ -596,6 +638,9 @@ func (e *engine) judge(j job, sp caseSpec, r *vlib.ChildResult) {
 		e.violation(sp, inj, hit, f, w, st, res, r.Dir)
 	}
 	key := fmt.Sprintf("%d/%s", idx, inj.Errno)
+	if usesStepper(sp) {
+		cs.errLen[key] = len(enumerate(tf, w).Points)
+	}
 	if !cs.errored[key] {
 		cs.errored[key] = true
 		out := "failed"
@@ -608,6 +653,42 @@ func (e *engine) judge(j job, sp caseSpec, r *vlib.ChildResult) {
 		rep.Count("temp_leftovers_after_error", int64(len(st.Temps)))
 		rep.Distinct(fmt.Sprintf("%s|err|%s|%s", sp.sig(), key, hit.Name))
 		rep.Seen("errors_injected_into", hit.Name+":"+inj.Errno)
+	}
+}
+
+// judgeSecond evaluates a second-order run: an error went into call e and the process
+// was killed before the later mutating call k (inside the operation's own retry).
+func (e *engine) judgeSecond(j job, sp caseSpec, r *vlib.ChildResult, w *world, tf *traceFile) {
+	rep, cs, inj := e.rep, j.cs, j.inj
+	rep.Count("second_order_runs", 1)
+	died := r.Signal == "killed" && tf.Killed && !r.Done
+	if !died {
+		rep.Count("second_order_not_killed", 1) // the run ended before call k (shorter sequence)
+		return
+	}
+	eIdx, _, _ := hitIndex(tf, w, false)
+	kIdx, hit, _ := hitIndex(tf, w, true)
+	if eIdx != inj.Point.Index || kIdx != inj.KillAt {
+		rep.Count("second_order_off_plan", 1)
+		return
+	}
+	st, err := w.inspect()
+	if err != nil {
+		rep.Inconclusive("%s: cannot inspect the sandbox after the second-order kill: %v", sp.label(), err)
+		return
+	}
+	for _, f := range st.Findings {
+		sig := fmt.Sprintf("C17:%s:%s:error+crash:%s", f.Kind, sp.Target, f.Role)
+		rep.Violation(sig, fmt.Sprintf("%s, %s injected into %s, then the process was killed inside the retry immediately before %s: %s",
+			sp.Target, inj.Errno, inj.Point.What, hit.short(w), f.Text),
+			map[string]any{"spec": sp, "inject": inj, "tampered_call": hit.short(w), "finding": f, "state": st, "trace_tail": traceExcerpt(r.Dir, 80)})
+	}
+	key := fmt.Sprintf("%d/%s/%d", eIdx, inj.Errno, kIdx)
+	if !cs.second[key] {
+		cs.second[key] = true
+		rep.Count("second_order_points_killed", 1)
+		rep.Count("second_order_state_"+st.Dest, 1)
+		rep.Distinct(fmt.Sprintf("%s|errkill|%s|%s", sp.sig(), key, hit.Name))
 	}
 }
 
@@ -645,6 +726,9 @@ func (e *engine) runReaders() {
 	for i := range rcs {
 		sp := &rcs[i]
 		name := fmt.Sprintf("readers-%s", sp.Target)
+		if sp.Variant == "newdir" {
+			name += "-newdir"
+		}
 		if sp.Target == tDownload {
 			sp.URL = e.srv.url(name, "complete", sp.Seed, sp.NewSize)
 			// every resource of the scenario has its own seed; the server derives the content from the URL,
@@ -736,8 +820,13 @@ func (e *engine) replay() {
 var readerCasesOverride []caseSpec
 
 func newCaseState(sp caseSpec) *caseState {
-	return &caseState{sp: sp, killed: map[int]bool{}, errored: map[string]bool{}, outcomes: map[int]string{}, errOut: map[string]string{}, vanished: map[int]bool{}, errGone: map[string]bool{}}
+	return &caseState{sp: sp, killed: map[int]bool{}, errored: map[string]bool{}, outcomes: map[int]string{}, errOut: map[string]string{}, vanished: map[int]bool{}, errGone: map[string]bool{}, errLen: map[string]int{}, second: map[string]bool{}}
 }
+
+// retries: targets that try again by themselves after a failed attempt.
+func retries(target string) bool { return target == tFstree }
+
+const secondOrder = true
 
 func usesStepper(sp caseSpec) bool {
 	return sp.Target == tDownload || sp.Mech == "ptrace" || os.Getenv("C17_STEPPER_ALL") != ""
